@@ -459,7 +459,7 @@ def long_c09_cases(seed, tier):
     # origin states of make_parse outgrows its first block while the candidates loop is running
     c = ['case L-amb long', 'notree', 'quietev', 'text 0 %s' % "S : S S # n (0 1) | 'a' # 0 ;".encode().hex(), 'op 1 create 0', 'op 2 descr 0 0 1', 'op 3 set 0 rec 0']
     k = 3
-    for n, one, cost in ((66, 0, 0), (67, 0, 0), (80, 1, 1), (140, 0, 0)):
+    for n, one, cost in ((66, 0, 0), (67, 0, 0), (80, 1, 1), (100, 0, 0)):
         for what, v in (('one', one), ('cost', cost)):
             k += 1; c.append('op %d set 0 %s %d' % (k, what, v))
         k += 1; c.append('op %d parse 0 user user 12 rep %d 1 97' % (k, n))
